@@ -387,7 +387,9 @@ func c05Run(r *Run) {
 			return true
 		})
 	}
-	if catchFn == nil {
+	if catchFn == nil && c05CatchBySearch(r, npkg, methods, fCatch) {
+		// decided by the search form
+	} else if catchFn == nil {
 		// a range over a copy?
 		r.bad("TryStatement#catch-dispatch", try.Obj().Pos(), "no method of TryStatement ranges directly over the CatchBlocks slice: declaration order cannot be established")
 	} else {
@@ -830,4 +832,191 @@ func c05IndexLoopOver(fs *ast.ForStmt, fieldOf func(ast.Expr) *types.Var, f *typ
 		return true
 	})
 	return indexed
+}
+
+// c05CatchBySearch: the dispatch written as a library search — at := slices.IndexFunc(t.CatchBlocks, pred)
+// followed by t.CatchBlocks[at]. slices.IndexFunc answers the first index, in slice order, whose element
+// satisfies pred: declaration order and first-match are the library's contract, provided the clause that
+// runs is the one at exactly that index, pred consults the clause's declared type, and the catch variable
+// receives the thrown control. Reports under the same constructs as the loop form; false when no method
+// searches CatchBlocks this way.
+func c05CatchBySearch(r *Run, npkg *packages.Package, methods map[*types.Func]*ast.FuncDecl, fCatch *types.Var) bool {
+	info := npkg.TypesInfo
+	fieldOf := func(e ast.Expr) *types.Var {
+		if se, ok := ast.Unparen(e).(*ast.SelectorExpr); ok {
+			if sel, ok := info.Selections[se]; ok && sel.Kind() == types.FieldVal {
+				return sel.Obj().(*types.Var)
+			}
+		}
+		return nil
+	}
+	var fn *ast.FuncDecl
+	var call *ast.CallExpr
+	for _, fd := range methods {
+		ast.Inspect(fd.Body, func(n ast.Node) bool {
+			if c, ok := n.(*ast.CallExpr); ok && len(c.Args) == 2 && fieldOf(c.Args[0]) == fCatch {
+				if cal := calleeFunc(info, c); cal != nil && cal.Pkg() != nil && cal.Pkg().Path() == "slices" && cal.Name() == "IndexFunc" {
+					if fn == nil || c.Pos() < call.Pos() {
+						fn, call = fd, c
+					}
+				}
+			}
+			return true
+		})
+	}
+	if fn == nil {
+		return false
+	}
+	ck := funcKey(npkg, fn)
+	r.ok(ck+"#order", call.Pos(), "catch clauses searched with slices.IndexFunc over the CatchBlocks slice (first index in declaration order)")
+	// the result of the search
+	var at types.Object
+	ast.Inspect(fn.Body, func(n ast.Node) bool {
+		if as, ok := n.(*ast.AssignStmt); ok && len(as.Lhs) == 1 && len(as.Rhs) == 1 && ast.Unparen(as.Rhs[0]) == ast.Expr(call) {
+			if id, ok := as.Lhs[0].(*ast.Ident); ok {
+				at = info.Defs[id]
+				if at == nil {
+					at = info.Uses[id]
+				}
+			}
+		}
+		return true
+	})
+	// the predicate consults the declared exception type (itself, or through one helper it calls)
+	mentionsType := func(n ast.Node) bool {
+		found := false
+		ast.Inspect(n, func(m ast.Node) bool {
+			if se, ok := m.(*ast.SelectorExpr); ok && se.Sel.Name == "ExceptionType" {
+				found = true
+			}
+			return true
+		})
+		return found
+	}
+	var predBody ast.Node
+	switch p := ast.Unparen(call.Args[1]).(type) {
+	case *ast.FuncLit:
+		predBody = p.Body
+	default:
+		var o types.Object
+		switch q := p.(type) {
+		case *ast.Ident:
+			o = info.Uses[q]
+		case *ast.SelectorExpr:
+			o = info.Uses[q.Sel]
+		}
+		if f, ok := o.(*types.Func); ok {
+			if _, fd := r.declAnywhere(f); fd != nil {
+				predBody = fd.Body
+			}
+		}
+	}
+	consults := false
+	if predBody != nil {
+		consults = mentionsType(predBody)
+		ast.Inspect(predBody, func(n ast.Node) bool {
+			if c, ok := n.(*ast.CallExpr); ok && !consults {
+				if f := calleeFunc(info, c); f != nil {
+					if _, fd := r.declAnywhere(f); fd != nil && mentionsType(fd.Body) {
+						consults = true
+					}
+				}
+			}
+			return true
+		})
+	}
+	// the clause that runs is the one at the found index, and the index is not re-assigned
+	bad := token.NoPos
+	uses := 0
+	ast.Inspect(fn.Body, func(n ast.Node) bool {
+		switch x := n.(type) {
+		case *ast.IndexExpr:
+			if fieldOf(x.X) == fCatch {
+				uses++
+				if id, ok := ast.Unparen(x.Index).(*ast.Ident); !ok || at == nil || info.Uses[id] != at {
+					bad = x.Pos()
+				}
+			}
+		case *ast.RangeStmt:
+			if fieldOf(x.X) == fCatch {
+				bad = x.Pos()
+			}
+		case *ast.AssignStmt:
+			for _, l := range x.Lhs {
+				if id, ok := l.(*ast.Ident); ok && at != nil && info.Uses[id] == at && !(len(x.Rhs) == 1 && ast.Unparen(x.Rhs[0]) == ast.Expr(call)) {
+					bad = x.Pos()
+				}
+			}
+		case *ast.IncDecStmt:
+			if id, ok := ast.Unparen(x.X).(*ast.Ident); ok && at != nil && info.Uses[id] == at {
+				bad = x.Pos()
+			}
+		}
+		return true
+	})
+	switch {
+	case !consults:
+		r.bad(ck+"#first-match", call.Pos(), "the search predicate does not consult the clause's declared exception type")
+	case at == nil || uses == 0:
+		r.bad(ck+"#first-match", call.Pos(), "the index found by the search is not what selects the clause that runs")
+	case bad != token.NoPos:
+		r.bad(ck+"#first-match", bad, "a catch clause is selected by something other than the index the search found")
+	default:
+		r.ok(ck+"#first-match", call.Pos(), "the clause that runs is the one at the first matching index (no later clause can run)")
+	}
+	// binding: the catch variable receives the thrown control
+	aliases := map[types.Object]bool{}
+	for _, p := range fn.Type.Params.List {
+		for _, n := range p.Names {
+			t := info.TypeOf(p.Type)
+			if isNamed(t, modPath+"/data", "Control") || isNamed(t, modPath+"/data", "ThrowValue") {
+				aliases[info.Defs[n]] = true
+			}
+		}
+	}
+	for pass := 0; pass < 2; pass++ {
+		ast.Inspect(fn.Body, func(n ast.Node) bool {
+			if as, ok := n.(*ast.AssignStmt); ok && len(as.Rhs) == 1 && as.Tok == token.DEFINE {
+				if ta, ok := ast.Unparen(as.Rhs[0]).(*ast.TypeAssertExpr); ok {
+					if id, ok := ast.Unparen(ta.X).(*ast.Ident); ok && aliases[info.Uses[id]] {
+						if l, ok := as.Lhs[0].(*ast.Ident); ok {
+							aliases[info.Defs[l]] = true
+						}
+					}
+				}
+			}
+			return true
+		})
+	}
+	boundSeen, boundOK := false, true
+	boundPos := call.Pos()
+	ast.Inspect(fn.Body, func(n ast.Node) bool {
+		c, ok := n.(*ast.CallExpr)
+		if !ok || len(c.Args) != 2 {
+			return true
+		}
+		cal := calleeFunc(info, c)
+		if cal == nil || (cal.Name() != "SetVariableValue" && cal.Name() != "SetValue") {
+			return true
+		}
+		if fv := fieldOf(c.Args[0]); fv == nil || fv.Name() != "Variable" {
+			return true
+		}
+		boundSeen = true
+		boundPos = c.Pos()
+		id, isId := ast.Unparen(c.Args[1]).(*ast.Ident)
+		if !isId || !aliases[info.Uses[id]] {
+			boundOK = false
+		}
+		return true
+	})
+	switch {
+	case !boundSeen:
+		r.bad(ck+"#bind", call.Pos(), "the matching branch never stores the thrown value into the catch variable")
+	case boundOK:
+		r.ok(ck+"#bind", boundPos, "the catch variable receives the thrown control itself")
+	default:
+		r.bad(ck+"#bind", boundPos, "the value stored into the catch variable is not the thrown control")
+	}
+	return true
 }
